@@ -78,6 +78,9 @@ pub fn catch<T>(f: impl FnOnce() -> T + std::panic::UnwindSafe) -> Result<T, Str
 pub fn quiet_panics() {
     std::panic::set_hook(Box::new(|info| {
         let loc = info.location().map(|l| format!("{}:{}", l.file(), l.line())).unwrap_or_default();
+        if std::env::var("VERIF_LOUD").is_ok() {
+            eprintln!("panic at {}: {}", loc, info);
+        }
         LAST_PANIC.with(|c| *c.borrow_mut() = loc);
     }));
 }
